@@ -4,8 +4,11 @@ import (
 	"encoding/binary"
 	"encoding/hex"
 	"fmt"
+	"strings"
 	"testing"
 
+	"github.com/google/go-tdx-guest/abi"
+	pb "github.com/google/go-tdx-guest/proto/tdx"
 	"github.com/google/go-tdx-guest/validate"
 	"pgregory.net/rapid"
 	"verifharness/gen"
@@ -175,6 +178,15 @@ func fieldsToOptions(p *gen.PolicyFields) *validate.Options {
 	}
 }
 
+// syncOptions copies the model's fields into a long-lived options value field by field (the value itself, and
+// whatever it keeps besides its exported fields, stays the same object).
+func syncOptions(o *validate.Options, p *gen.PolicyFields) {
+	o.HeaderOptions.MinimumQeSvn, o.HeaderOptions.MinimumPceSvn, o.HeaderOptions.QeVendorID = uint16(p.MinQeSvn), uint16(p.MinPceSvn), p.QeVendorID
+	b := &o.TdQuoteBodyOptions
+	b.MinimumTeeTcbSvn, b.MrSeam, b.TdAttributes, b.Xfam, b.MrTd = p.MinTeeTcbSvn, p.MrSeam, p.TdAttributes, p.Xfam, p.MrTd
+	b.MrConfigID, b.MrOwner, b.MrOwnerConfig, b.Rtmrs, b.ReportData, b.AnyMrTd = p.MrConfigID, p.MrOwner, p.MrOwnerConfig, p.Rtmrs, p.ReportData, p.AnyMrTd
+}
+
 func hx(b []byte) any {
 	if b == nil {
 		return nil
@@ -241,6 +253,11 @@ func c08Oracle(q *gen.RefQuote, p *gen.PolicyFields, raw bool) (string, string, 
 		m := q.ToProto()
 		v = gen.Call(func() error { return validate.TdxQuote(m, opts) })
 	}
+	return c08Judge(mv, v, p)
+}
+
+// c08Judge compares a verdict with the model's.
+func c08Judge(mv gen.PolicyVerdict, v gen.Verdict, p *gen.PolicyFields) (string, string, string) {
 	if v.Panicked() {
 		return "panic@" + gen.PanicSite(v.Stack), "validation returns success or an error for every options value", v.Panic
 	}
@@ -257,7 +274,7 @@ func c08Oracle(q *gen.RefQuote, p *gen.PolicyFields, raw bool) (string, string, 
 		return "", "", ""
 	}
 	if mv.Configured > 0 && mv.Near {
-		gen.NonTrivial("near", mv.Miss, fmt.Sprint(fieldsJSON(p)), q.Xfam[:], q.TdAttr[:])
+		gen.NonTrivial("near", mv.Miss, fmt.Sprint(fieldsJSON(p)))
 	}
 	if mv.Miss != "" {
 		gen.Class("model:reject")
@@ -300,6 +317,123 @@ func TestC08(t *testing.T) {
 			gen.Fail(t, gen.Violation{Key: key, Oracle: oracle, Detail: detail,
 				Replay: map[string]any{"kind": "validate", "raw_hex": hex.EncodeToString(q.Encode()), "options": fieldsJSON(p), "raw": raw}})
 		}
+	})
+	// Histories: ONE options value and a few parsed quote objects live through many validations (as in a service
+	// whose policy is edited while it runs); between validations the caller edits option byte strings and list
+	// entries in place or replaces them. Every validation is judged by the stateless model on the current values.
+	gen.Prop(t, "histories-on-long-lived-options-and-quotes", gen.N(1500, 80000), func(t *rapid.T) {
+		s := gen.NewStream(rapid.Uint64().Draw(t, "content"), "c08h")
+		var quotes []*gen.RefQuote
+		var msgs []*pb.QuoteV4
+		for i := 0; i < 2; i++ {
+			q := gen.RandomRefQuote(s, 8, 16, 0)
+			binary.LittleEndian.PutUint64(q.Xfam[:], gen.XfamFixed1|(s.Uint64()&gen.XfamFixed0))
+			binary.LittleEndian.PutUint64(q.TdAttr[:], s.Uint64()&gen.TdAttrAllowed)
+			quotes = append(quotes, q)
+			var m *pb.QuoteV4
+			if i == 0 {
+				// as the parser builds it (fields are sub-slices of one buffer)
+				mm, err := abi.QuoteToProto(q.Encode())
+				if err != nil {
+					gen.HarnessError(t, "own quote does not parse: %v", err)
+				}
+				m = mm.(*pb.QuoteV4)
+			} else {
+				m = q.ToProto()
+			}
+			msgs = append(msgs, m)
+		}
+		p := &gen.PolicyFields{}
+		// a policy that quote 0 satisfies, with an allow-list
+		p.MrSeam = append([]byte{}, quotes[0].MrSeam[:]...)
+		p.MrTd = nil
+		p.ReportData = append([]byte{}, quotes[0].ReportData[:]...)
+		p.AnyMrTd = [][]byte{s.Bytes(48), append([]byte{}, quotes[0].MrTd[:]...), s.Bytes(48)}[:1+rapid.IntRange(0, 2).Draw(t, "listLen")]
+		opts := fieldsToOptions(p)
+		var hist []string
+		edits, validations := 0, 0
+		fieldsOf := func() []*[]byte {
+			return []*[]byte{&p.MrSeam, &p.ReportData, &p.QeVendorID, &p.MrConfigID, &p.MrOwner, &p.MrOwnerConfig, &p.TdAttributes, &p.Xfam, &p.MinTeeTcbSvn}
+		}
+		actualOf := func(qi, fi int) []byte {
+			q := quotes[qi]
+			return [][]byte{q.MrSeam[:], q.ReportData[:], q.VendorID[:], q.MrConfigID[:], q.MrOwner[:], q.MrOwnerConfig[:], q.TdAttr[:], q.Xfam[:], q.TeeTcbSvn[:]}[fi]
+		}
+		t.Repeat(map[string]func(*rapid.T){
+			"validate": func(t *rapid.T) {
+				qi := rapid.IntRange(0, 1).Draw(t, "quote")
+				raw := rapid.IntRange(0, 3).Draw(t, "raw") == 0
+				syncOptions(opts, p)
+				mv := gen.PolicyModel(quotes[qi], p)
+				gen.Eval()
+				var v gen.Verdict
+				if raw {
+					b := quotes[qi].Encode()
+					v = gen.Call(func() error { return validate.RawTdxQuote(b, opts) })
+				} else {
+					v = gen.Call(func() error { return validate.TdxQuote(msgs[qi], opts) })
+				}
+				validations++
+				hist = append(hist, fmt.Sprintf("validate quote %d raw=%v -> %s (model miss=%q malformed=%v)", qi, raw, v.Short(), mv.Miss, mv.Malformed))
+				if key, oracle, detail := c08Judge(mv, v, p); key != "" {
+					gen.Fail(t, gen.Violation{Key: "history:" + key, Oracle: oracle + " (whatever was validated with this options value or this quote object before)", Detail: detail + "; history: " + strings.Join(hist, " ; "),
+						Replay: map[string]any{"kind": "c08-history", "history": hist}})
+				}
+			},
+			"edit-allow-list-entry-in-place": func(t *rapid.T) {
+				if len(p.AnyMrTd) == 0 {
+					t.Skip("empty list")
+				}
+				i := rapid.IntRange(0, len(p.AnyMrTd)-1).Draw(t, "entry")
+				switch rapid.IntRange(0, 3).Draw(t, "how") {
+				case 0:
+					p.AnyMrTd[i] = append([]byte{}, quotes[rapid.IntRange(0, 1).Draw(t, "of")].MrTd[:]...) // entry replaced, list header unchanged
+				case 1:
+					p.AnyMrTd[i] = s.Bytes(48)
+				case 2:
+					copy(p.AnyMrTd[i], quotes[rapid.IntRange(0, 1).Draw(t, "of")].MrTd[:]) // bytes overwritten in place
+				default:
+					p.AnyMrTd[i][rapid.IntRange(0, 47).Draw(t, "byte")] ^= 0x10
+				}
+				edits++
+				hist = append(hist, fmt.Sprintf("edit any_mr_td[%d] in place", i))
+			},
+			"edit-field": func(t *rapid.T) {
+				fs := fieldsOf()
+				fi := rapid.IntRange(0, len(fs)-1).Draw(t, "field")
+				f := fs[fi]
+				switch rapid.IntRange(0, 3).Draw(t, "how") {
+				case 0:
+					*f = nil
+				case 1:
+					*f = append([]byte{}, actualOf(rapid.IntRange(0, 1).Draw(t, "of"), fi)...)
+				case 2:
+					if len(*f) > 0 {
+						(*f)[rapid.IntRange(0, len(*f)-1).Draw(t, "byte")] ^= 0x01 // in place
+					}
+				default:
+					if len(*f) > 0 {
+						copy(*f, actualOf(rapid.IntRange(0, 1).Draw(t, "of"), fi)) // in place
+					}
+				}
+				edits++
+				hist = append(hist, fmt.Sprintf("edit field %d", fi))
+			},
+			"grow-or-shrink-allow-list": func(t *rapid.T) {
+				if len(p.AnyMrTd) > 0 && rapid.Bool().Draw(t, "shrink") {
+					p.AnyMrTd = p.AnyMrTd[:len(p.AnyMrTd)-1]
+				} else {
+					p.AnyMrTd = append(p.AnyMrTd, append([]byte{}, quotes[rapid.IntRange(0, 1).Draw(t, "of")].MrTd[:]...))
+				}
+				edits++
+				hist = append(hist, fmt.Sprintf("any_mr_td now %d entries", len(p.AnyMrTd)))
+			},
+		})
+		if edits > 0 && validations >= 2 {
+			gen.NonTrivial(strings.Join(hist, ";"))
+		}
+		gen.Class(fmt.Sprintf("history:validations>=2=%v,edits>0=%v", validations >= 2, edits > 0))
+		gen.Sample("history", hist)
 	})
 	// Sparse policies: exactly one expectation configured (so a single dropped check cannot hide behind another miss).
 	gen.Prop(t, "single-expectation", gen.N(40000, 3000000), func(t *rapid.T) {
